@@ -100,6 +100,16 @@ def run(ctx):
             gram["tables"] += 1
             grepc[g] = "yes" if kv.get("repconflict", "0") != "0" else "no"
             gram["states"].append(int(kv["states"]))
+            if kv.get("tablesafe") == "true":
+                gram["tableSafe"] = gram.get("tableSafe", 0) + 1
+            if kv.get("rel") == "true":
+                gram["relOK"] = gram.get("relOK", 0) + 1
+            if kv.get("relscope") == "true":
+                gram["rel_in_scope"] = gram.get("rel_in_scope", 0) + 1
+                if kv.get("rel") == "false":
+                    viol.append((0, "judge", "a production of the generated table of %s is not an instance of the source rule of its left-hand side: %s" % (g, kv.get("badprod")),
+                                 {"case": g, "spec": "%s t:" % gsrc.get(g, "?"), "result": kv},
+                                 {"clause": "table-production-not-in-grammar", "kind": kv["kind"]}, True))
             if kv.get("rootsafe") == "true":
                 gram["rootSafe"] = gram.get("rootSafe", 0) + 1
             if kv["closed"] == "true":
@@ -177,7 +187,8 @@ def run(ctx):
                 "strings: every token string up to the per-grammar bound L over the grammar's terminals, random derivations (6..1000 tokens) and 2 token-level mutations each, "
                 "grammar-directed documents for zoo grammars; non-trivial := error-free and the real tree uses >= 3 distinct productions; distinct by hash of (grammar source, string)",
         "samples": samples,
-        "grammars": {"tables": gram["tables"], "tableClosed": gram["closed"], "rootSafe(premise of driver_sound; fails only with non-terminal extras)": gram.get("rootSafe", 0), "with_oracle": gram["oracle"],
+        "grammars": {"tables": gram["tables"], "tableClosed": gram["closed"], "tableSafe": gram.get("tableSafe", 0),
+                     "relOK(premise of parser_sound_per_grammar holds)": gram.get("relOK", 0), "rel_in_scope(failing relOK is a violation)": gram.get("rel_in_scope", 0), "rootSafe(premise of driver_sound; fails only with non-terminal extras)": gram.get("rootSafe", 0), "with_oracle": gram["oracle"],
                      "oracle_fixpoint": gram["oracle_fixpoint"],
                      "states_min_med_max": [st[0], st[len(st) // 2], st[-1]] if st else [],
                      "language_sizes_up_to_L": sorted(gram["lang_sizes"])[-8:], "generator": stats},
